@@ -51,7 +51,7 @@ def bounds(tier, seed):
     return {
         "durations": [20, 97] + ([50, 100] if tier == "thorough" else []),
         "dt": "10, 7, 3, T, 2T" + (", 0.5, 16" if tier == "thorough" else ""),
-        "eval_alphabet": "0, 1/3, 0.37, 0.5, k*dt/T, nextafter(k*dt/T, +-), 0.1+0.2, (T-0.5)/T, 1",
+        "eval_alphabet": "0, 1/3, 0.37, 0.5, k*dt/T, nextafter(k*dt/T, +-), 0.1+0.2, (T-0.5)/T, 1, dt/T+5e-11, 5e-11",
         "subset_size": 2 if tier == "quick" else 3,
         "modes": MODES,
         "backends": BACKENDS,
@@ -72,6 +72,9 @@ def _alphabet(T, dt):
     k = max(1, int((T / dt) // 2))
     g = min(k * dt / T, 1.0)
     vals = [0.0, 1 / 3, 0.37, 0.5, g, float(np.nextafter(g, 2.0)) if g < 1 else g, float(np.nextafter(g, -1.0)), 0.1 + 0.2, max(0.0, (T - 0.5) / T), 1.0]
+    # just inside the window within which the grid treats two times as one (1e-10 of the duration): next to a grid point, next to time 0
+    g1 = dt / T if dt < T else g
+    vals += [g1 + 5e-11, 5e-11]
     out = []
     for v in vals:
         if 0.0 <= v <= 1.0 and v not in out:
@@ -189,7 +192,11 @@ def run_case(case):
                 ref.states = [s / np.linalg.norm(s) for s in sts]
         for tag, times in want.items():
             got = list(res.get_result_times(tag)) if tag in res.get_result_tags() else []
-            exp = sorted(times)
+            exp = []
+            for t in sorted(times):
+                # requested times closer than the matching tolerance of the backends (1e-10 of the duration) are ONE time ("duplicates within tolerance")
+                if not exp or t - exp[-1] > 1e-10:
+                    exp.append(t)
             if len(got) != len(exp) or any(abs(a - b) > 1e-9 for a, b in zip(got, exp)):
                 kind = "missing" if len(got) < len(exp) else ("extra" if len(got) > len(exp) else "shifted")
                 return result(False, sig=f"times|{be}|{mode}|{kind}", msg=f"{label}: {tag} recorded at {got} but requested at {exp}", outcome="times", states=states, transitions=transitions)
